@@ -675,8 +675,13 @@ def read_status(gen, typ, data):
 # ================================================================== builders
 # (console side: used by SimConsole and by workload generators)
 
-def _name_fixed(name, n):
+def _name_fixed(name, n, tail=None):
+    """A fixed-width, NUL-terminated text field. tail: what a console that wrote a shorter
+    name over an older one (or never cleared its flash) leaves behind the terminator."""
     b = name.encode("utf-8")[:n]
+    if tail and len(b) < n - 1:
+        room = n - len(b) - 1
+        return b + b"\0" + (bytes(tail) * room)[:room]
     return b + b"\0" * (n - len(b))
 
 
@@ -726,7 +731,7 @@ def _fan_bits(f):
 
 def b4_ability_record(a):
     """a: dict(ac, name, start, count, modes, fans, min_sp, max_sp, groups|None)."""
-    rec = (_name_fixed(a["name"], 16)
+    rec = (_name_fixed(a["name"], 16, a.get("name_tail"))
            + bytes([a["start"], a["count"], _mode_bits(a["modes"]),
                     _fan_bits(a["fans"]) & 0x7F, a["min_sp"], a["max_sp"]]))
     if a.get("groups") is not None:
@@ -736,7 +741,7 @@ def b4_ability_record(a):
 
 
 def b5_ability_record(a):
-    rec = (_name_fixed(a["name"], 16)
+    rec = (_name_fixed(a["name"], 16, a.get("name_tail"))
            + bytes([a["start"], a["count"], _mode_bits(a["modes"]), _fan_bits(a["fans"]),
                     a["min_cool"], a["max_cool"], a["min_heat"], a["max_heat"]]))
     return bytes([a["ac"], len(rec)]) + rec
